@@ -124,6 +124,8 @@ CORPUS = [
     {"k": "wait", "items": [["poll", []], ["env", [["a", 1]]], ["poll", []]]},
     {"k": "waitmt", "gap": True},
     {"k": "waitmt", "gap": False},
+    # several tasks blocked at once, ONE peer connects: every one of them must proceed
+    {"k": "waitn", "n": 2}, {"k": "waitn", "n": 3}, {"k": "waitn", "n": 5},
     # all peers full: try gives the message back, route blocks on the first peer of the pass
     {"k": "hist", "ops": [["add", 0], ["add", 1], ["add", 2], ["next"], ["try"], ["route", 0], ["route", 0], ["next"]],
      "acc": [0] * 16, "closed": [0] * 16, "sacc": [0, 0, 0, 0, 0, 0, 1, 0, 0, 0, 7], "sclosed": [0] * 16, "env": []},
@@ -187,6 +189,8 @@ def to_coq(c):
         for it in c["items"]:
             items.append("%s %s" % ("WPoll" if it[0] == "poll" else "WEnv", c_mops(it[1], "EAdd", "ERemove")))
         return "(CWait [%s])" % "; ".join(items)
+    if c["k"] == "waitn":
+        return "(CWaitN %d%%nat)" % c["n"]
     return "(CWaitMT %s)" % C.cbool(c["gap"])
 
 
@@ -217,6 +221,11 @@ def oracle(c, o):
     if c["k"] == "waitmt":
         if rows[0][0] == 1 and rows[0][1] > 0:
             return "lost wake-up: wait_for_connection still asleep 400 ms after a peer connected (2 threads, add_connection between the check and notified())"
+        return None
+    if c["k"] == "waitn":
+        if rows[0][2] > 0:
+            return ("%d of %d tasks waiting for a first peer were still parked 600 ms after a peer had connected (a send waiting "
+                    "for a first peer must proceed as soon as one has connected)" % (rows[0][2], rows[0][0]))
         return None
     if c["k"] == "wait":
         deact = False
